@@ -19,6 +19,14 @@ package pod_status
 // allocated: charged to the workload's Allocated resources
 //@ define stAllocated(s int) bool = s == Allocated || s == Binding || s == Bound || s == Running
 
+// The same classes as computed by the code's masks, for use inside quantifiers of other packages' specs
+// (a call to Is*Status cannot be used under a quantifier). The contracts below tie them to the status sets above.
+//@ define inAlive(s int) bool = bitand(aliveStatuses, s) != 0
+//@ define inActiveUsed(s int) bool = bitand(activeUsedStatuses, s) != 0
+//@ define inActiveAllocated(s int) bool = bitand(activeAllocatedStatuses, s) != 0
+//@ define inBound(s int) bool = bitand(boundStatuses, s) != 0
+//@ define inAllocated(s int) bool = bitand(allocatedStatuses, s) != 0
+
 //@ func IsAliveStatus
 //@   props C14 C03 C06
 //@   pure
